@@ -15,31 +15,31 @@ package resource
 //@   requires resOk(g)
 //@   callsite (db.Db).Get assert[C10] @safe dbSafeG(refOf(g.db))
 //@   callsite (db.Db).Get assert[C10,C18] @ctx arg1 == ctx
-//@   modifies nothing
+//@   modifies count(dbgets), count(stfault)
 
 //@ func (*DbResource).sfn
 //@   serves C10, C18
 //@   requires resOk(g)
 //@   callsite (*DbResource).fn assert[C10,C18] @ctx arg1 == ctx && arg2 == sym
-//@   modifies nothing
+//@   modifies count(dbgets), count(stfault)
 
 //@ func (*DbResource).DbGetTemplate
 //@   serves C10, C18
 //@   requires resOk(g)
-//@   modifies dbPfx[refOf(g.db)]
+//@   modifies dbPfx[refOf(g.db)], count(dbgets), count(stfault)
 //@   callsite (*DbResource).sfn assert[C10,C18] @typed dbPfx(refOf(g.db)) == db.DATATYPE_TEMPLATE && arg1 == ctx && arg2 == sym
 //@   ensures[C10] @disabled !bit(g.typs, 2) ==> result1 != nil
 
 //@ func (*DbResource).DbGetMenu
 //@   serves C10, C18
 //@   requires resOk(g)
-//@   modifies dbPfx[refOf(g.db)]
+//@   modifies dbPfx[refOf(g.db)], count(dbgets), count(stfault)
 //@   callsite (*DbResource).sfn assert[C10,C18] @typed dbPfx(refOf(g.db)) == db.DATATYPE_MENU && arg1 == ctx && arg2 == sym + "_menu"
 //@   ensures[C10] @disabled !bit(g.typs, 1) ==> result1 != nil
 
 //@ func (*DbResource).DbGetCode
 //@   serves C10, C18
 //@   requires resOk(g)
-//@   modifies dbPfx[refOf(g.db)]
+//@   modifies dbPfx[refOf(g.db)], count(dbgets), count(stfault)
 //@   callsite (*DbResource).fn assert[C10,C18] @typed dbPfx(refOf(g.db)) == db.DATATYPE_BIN && arg1 == ctx && arg2 == sym
 //@   ensures[C10] @disabled !bit(g.typs, 0) ==> result1 != nil
